@@ -886,3 +886,14 @@ def run(chk):
     chk.floor("F2-", 3)
     chk.floor("E2-argument-role", 8)
     chk.floor("C", 4)
+
+
+# --- engine I (pgverif/oneshot.py): one-shot iterators handed out by the grid accessors are walked once per creation and never memoised.
+# Run first so that its reports do not depend on the idiom recognition of the rules above.
+_run_before_engine_I = run
+
+
+def run(chk):  # noqa: F811
+    from ..oneshot import attach
+    attach(chk, [(U.ADV, {"VParallelAdvection"})])
+    _run_before_engine_I(chk)
